@@ -78,6 +78,7 @@ RV_SP = {"c.lwsp", "c.swsp", "c.addi16sp", "c.addi4spn"}
 RV_MEM = {"lb", "lh", "lw", "lbu", "lhu", "sb", "sh", "sw"}
 
 # known findings: avoid switches decided on the *instance* (class, operand structure), never on results
+RVC_TWO_ADDRESS = {"csub_ins", "cxor_ins", "cor_ins", "cand_ins", "CAddi"}
 X86_IMPLICIT_CLASSES = {"Div", "Idiv", "Div32", "Idiv32", "Div16", "Idiv16", "Cdqe", "Cwd", "Cdq", "Cqo"}
 
 
@@ -95,9 +96,9 @@ def plan(tier, seed, avoid):
 
 def floors(tier):
     q = tier == "quick"
-    return {"evaluations": 60000 if q else 1000000, "distinct_nontrivial": 800 if q else 8000,
-            "observed.classes_probed.x86_64": 100, "observed.classes_probed.riscv": 40,
-            "observed.classes_probed.riscv:rvc": 50, "observed.perturbations_compared": 50000,
+    return {"evaluations": 50000 if q else 600000, "distinct_nontrivial": 1500 if q else 8000,
+            "observed.classes_probed.x86_64": 90, "observed.classes_probed.riscv": 28,
+            "observed.classes_probed.riscv:rvc": 32, "observed.perturbations_compared": 40000,
             "observed.memory_effects_compared": 1000, "observed.partial_register_outputs": 200,
             "observed.x86_probe_selftest": 1}
 
@@ -521,14 +522,29 @@ def run_rv(spec, mon):
     mach = rv32emu.Machine()
     mach.add_region(RV_CODE, 64, writable=False, name="code")
     mach.add_region(RV_RAM, RV_RAM_SIZE, writable=True, name="ram")
+    c08_open = set(open_keys("C08")) & {"rvc-compressed-register-wraps", "rvc-two-address-source-not-encoded",
+                                         "rvc-reserved-encodings-accepted"}
+    avoid = spec["avoid"]
     for ci in mine:
         probed = 0
+        reasons = {}
+
+        def skip(reason):
+            mon.skip_instance(target, reason)
+            reasons[reason] = reasons.get(reason, 0) + 1
+
+        if ci.cls.__module__.endswith("data_instructions"):
+            mon.skip_class(target, "data-directive", ci.key)
+            continue
+        if "rvc-two-address-destination-read-undeclared" in avoid and ci.cls.__name__ in RVC_TWO_ADDRESS:
+            mon.skip_class(target, "avoid:rvc-two-address-destination-read-undeclared", ci.key)
+            continue
         for k, inst in enumerate(isaenum.instances(en, ci, n_inst)):
             if inst.obj is None:
-                mon.skip_instance(target, "construction-refused")
+                skip("construction-refused")
                 continue
             if isaenum.is_virtual(inst.obj):
-                mon.skip_class(target, "virtual-pseudo-instruction", ci.key)
+                skip("virtual-pseudo-instruction")
                 break
             try:
                 obj = inst.fresh()
@@ -539,39 +555,44 @@ def run_rv(spec, mon):
                 clob = list(obj.clobbers)
                 regs = list(obj.registers)
             except Exception:  # noqa  (C10's business) / pseudo instructions rendering several instructions
-                mon.skip_instance(target, "cannot-encode")
+                skip("cannot-encode")
                 continue
             if relocs:
-                mon.skip_instance(target, "relocation(label)")
+                skip("relocation(label)")
                 continue
             if len(code) not in (2, 4):
-                mon.skip_class(target, "data-directive-or-multi-instruction", ci.key)
+                skip("data-directive-or-multi-instruction")
                 break
             insn = rv32emu.decode(code + bytes(4))
             if insn.length != len(code):
-                mon.skip_instance(target, "length-differs-from-decoder")
+                skip("length-differs-from-decoder")
                 continue
             if insn.is_illegal:
                 fp = any(type(x).__name__ != "RiscvRegister" for x in regs + uses + defs)
-                mon.skip_instance(target, "F/D (not in the emulator)" if fp else "emulator: reserved/illegal encoding")
-                if fp:
-                    mon.skip_class(target, "floating-point", ci.key)
+                skip("floating-point (F/D not in the emulator)" if fp else "emulator: reserved/illegal encoding")
                 continue
             mn = insn.mnemonic
             if mn in RV_CONTROL:
-                mon.skip_class(target, "control-flow", ci.key)
-                break
+                skip("control-flow")
+                continue
             if mn in RV_SYSTEM:
-                mon.skip_class(target, "system", ci.key)
-                break
+                skip("system")
+                continue
             if mn in RV_SP:
-                mon.skip_class(target, "stack-pointer-relative", ci.key)
-                break
+                skip("stack-pointer-relative")
+                continue
             if any(type(x).__name__ != "RiscvRegister" for x in regs + uses + defs + clob):
-                mon.skip_instance(target, "non-integer register")
+                skip("non-integer register")
                 continue
             if any(x.num == 2 for x in regs + uses + defs + clob):
-                mon.skip_instance(target, "names-stack-pointer")
+                skip("names-stack-pointer")
+                continue
+            named = {x.num for x in regs}
+            decoded = {v for v in (insn.rd, insn.rs1, insn.rs2) if v is not None}
+            if c08_open and named != decoded and named != decoded - {0}:
+                # the encoding addresses other registers than the operands (C08's open RVC findings): the
+                # annotation of the instruction ppci believes it emits cannot be judged on this encoding
+                skip("encoding names other registers (C08 %s)" % ",".join(sorted(c08_open)))
                 continue
             e = insn.expanded or insn
             use_n = {x.num for x in closure(arch, uses)}
@@ -657,6 +678,8 @@ def run_rv(spec, mon):
                                         "read": sorted(base["reads"])})
         if probed:
             mon.bump(mon.obs["classes_probed"], target)
+        elif reasons:
+            mon.skip_class(target, max(sorted(reasons), key=lambda k2: reasons[k2]), ci.key)
 
 
 def run_shard(spec):
@@ -671,4 +694,105 @@ def run_shard(spec):
     return mon.result()
 
 
-PROBES = {}
+# --------------------------------------------------------------------------
+# witness probes
+
+
+def _x86_run(obj, gpr_over, perturb=None):
+    from vlib import x86probe as xp
+
+    st = {"gpr": [0x1000 + 17 * i for i in range(16)], "xmm": [i + 1 for i in range(16)], "flags": 0, "seed": 5}
+    for k, v in gpr_over.items():
+        st["gpr"][k] = v
+    code = bytes(obj.encode())
+    probes = [dict(st, code=code)]
+    if perturb:
+        p = dict(st, code=code, gpr=list(st["gpr"]))
+        p["gpr"][perturb[0]] = perturb[1]
+        probes.append(p)
+    res = xp.run_probes(probes, tag="c07probe")
+    if any(q is None or q.get("fault") for q in res):
+        raise RuntimeError("witness probe faulted: %r" % [q and q.get("fault") for q in res])
+    return st, res
+
+
+def probe_x86_rm_destination():
+    setup()
+    from vlib import isaenum
+    from ppci.arch.x86_64.instructions import bits64, RmReg64
+    from ppci.arch.x86_64.registers import rbx
+
+    arch = isaenum.get_arch("x86_64")
+    obj = bits64.NegRm(RmReg64(rbx))
+    st, (q,) = _x86_run(obj, {3: 5})
+    may = {x86_phys(x)[:2] for x in closure(arch, list(obj.defined_registers) + list(obj.clobbers))}
+    if q["gpr"][3] != st["gpr"][3] and ("g", 3) not in may:
+        return "`%s`: rbx changed %#x -> %#x, defined_registers = %s" % (obj, st["gpr"][3], q["gpr"][3],
+                                                                        [str(x) for x in obj.defined_registers])
+    return None
+
+
+def probe_x86_shift_cl():
+    setup()
+    from vlib import isaenum, x86probe as xp
+    from ppci.arch.x86_64.instructions import bits64, RmMem
+    from ppci.arch.x86_64.registers import rbx
+
+    arch = isaenum.get_arch("x86_64")
+    obj = bits64.ShlCl(RmMem(rbx))
+    st, (q0, q1) = _x86_run(obj, {3: xp.SCRATCH_MID, 1: 1}, perturb=(1, 2))
+    uses = {x86_phys(x)[:2] for x in closure(arch, list(obj.used_registers))}
+    if ("g", 1) not in uses and q0["mem"] != q1["mem"]:
+        return "`%s`: rcx = 1 / 2 gives memory %s / %s, used_registers = %s" % (
+            obj, q0["mem"] and q0["mem"][2].hex(), q1["mem"] and q1["mem"][2].hex(), [str(x) for x in obj.used_registers])
+    return None
+
+
+def probe_x86_implicit():
+    setup()
+    from vlib import isaenum
+    from ppci.arch.x86_64.instructions import Idiv
+    from ppci.arch.x86_64.registers import rbx
+
+    arch = isaenum.get_arch("x86_64")
+    obj = Idiv(rbx)
+    st, (q,) = _x86_run(obj, {0: 100, 2: 0, 3: 7})
+    may = {x86_phys(x)[:2] for x in closure(arch, list(obj.defined_registers) + list(obj.clobbers))}
+    bad = [n for n, i in (("rax", 0), ("rdx", 2)) if q["gpr"][i] != st["gpr"][i] and ("g", i) not in may]
+    if bad:
+        return "`%s`: %s changed (rax %d -> %d, rdx %d -> %d), defined_registers = %s" % (
+            obj, "/".join(bad), st["gpr"][0], q["gpr"][0], st["gpr"][2], q["gpr"][2], [str(x) for x in obj.defined_registers])
+    return None
+
+
+def probe_rvc_two_address():
+    setup()
+    from vlib import rv32emu
+    from ppci.arch.riscv.rvc_instructions import CAddi
+    from ppci.arch.riscv.registers import R9
+
+    obj = CAddi(R9, R9, 3)
+    code = bytes(obj.encode())
+    mach = rv32emu.Machine()
+    mach.add_region(RV_CODE, 64, writable=False, name="code")
+    mach.add_region(RV_RAM, RV_RAM_SIZE, writable=True, name="ram")
+    x = [0] * 32
+    x[9] = 5
+    a = rv_step(mach, code, x, bytes(RV_RAM_SIZE))
+    x[9] = 6
+    b = rv_step(mach, code, x, bytes(RV_RAM_SIZE))
+    if a["fault"] or b["fault"]:
+        raise RuntimeError("witness faulted")
+    uses = {r.num for r in obj.used_registers}
+    if 9 not in uses and a["x"][9] != b["x"][9]:
+        return "`%s` (%s): x9 = 5 / 6 gives x9 = %d / %d, used_registers = %s" % (
+            obj, code.hex(), a["x"][9], b["x"][9], [str(r) for r in obj.used_registers])
+    return None
+
+
+PROBES = {
+    "x86-rm-register-destination-write-undeclared": probe_x86_rm_destination,
+    "x86-shift-count-cl-undeclared": probe_x86_shift_cl,
+    "x86-implicit-register-operands-undeclared": probe_x86_implicit,
+    "rvc-two-address-destination-read-undeclared": probe_rvc_two_address,
+}
